@@ -98,6 +98,8 @@ REGIONS["WithOptions"] = [
 # validate() of these classes consults cache state (a warm entry short-cuts validation): restriction-stability of validate
 # is stated for them only through evaluate (C10), not as part of L2
 STATEFUL_VALIDATE = ("Cached", "Dataset")
+# evaluate() of a dataset class instantiates it (metaclass call): specified separately (contracts/datasetclass_c19.py + bounded search)
+NO_EVALUATE = ("_DatasetClassMeta",)
 
 
 def _region_dataset_effects():
@@ -305,7 +307,7 @@ def law_vcs(repo, ci, laws=("L1", "L2", "L3", "L6", "L6v", "L4a", "L5", "L5d", "
         return ps
 
     K1 = get("keys", 1)
-    E1 = get("evaluate", 1)
+    E1 = get("evaluate", 1) if C not in NO_EVALUATE else None
     V1 = get("validate", 1)
     X1 = get("explain", 1)
     k = z3.Const("k!g", T.Key)
@@ -471,5 +473,7 @@ def l10_obligations(repo, ci, R):
                         bad.append(f"applies a user callable {str(f)[:80]}")
                 elif ev[0] == "call" and ev[1] == "transform":
                     bad.append("runs an effect")
+                elif ev[0] in ("store", "class-store", "setattr", "heap-write", "field-write") and not str(ev[1]).startswith(("ke1!obj_", "va1!obj_", "ex1!obj_", "ke1!x", "va1!x", "ex1!x")):
+                    bad.append(f"writes {ev[0]} {str(ev[1])[:40]}.{ev[2] if len(ev) > 2 else ''}")
             out.append({"name": f"{C}:L10:{meth}#{i}", "ok": not bad, "detail": "; ".join(bad), "group": f"{C}:L10"})
     return out
